@@ -10,8 +10,8 @@ Import ListNotations.
 From SV Require Import C01.SatSpec C01.Machine C01.DeepCdcl.
 From SV Require C01.DeepBase C01.DeepTrail C01.DeepTrailProp C01.DeepAnalyze C01.DeepWatch C01.DeepReason C01.DeepReasonProp
   C01.DeepRunOps C01.DeepReduce C01.DeepRun C01.DeepInit C01.DeepJ C01.DeepJOps C01.DeepJProp C01.DeepJAttach C01.DeepJLearn
-  C01.DeepJReduce C01.DeepJRun.
-Import DeepTrail DeepTrailProp DeepAnalyze DeepWatch DeepReason DeepReasonProp DeepRun DeepJ DeepJProp DeepJRun.
+  C01.DeepJReduce C01.DeepJRun C01.DeepSteps C01.DeepAlgo C01.DeepResult.
+Import DeepTrail DeepTrailProp DeepAnalyze DeepWatch DeepReason DeepReasonProp DeepRun DeepJ DeepJProp DeepJRun DeepAlgo.
 
 (* ---- (a) deep_trail_inv (T): vals / trail / trail_lim / levels / prop_head are consistent:
    no variable twice on the trail, a variable is assigned iff it is on the trail, prop_head <= len(trail), trail_lim is
@@ -121,6 +121,41 @@ Theorem deep_watch_inv : forall fuel cls A mc mr limit lf orc P L0 L, valid_inpu
 Proof. exact DeepJRun.run_LJ. Qed.
 Print Assumptions deep_watch_inv.
 
+(* ---- (e) C01_algorithm: for every valid input, every option value, every decision oracle and every fuel: whenever a run of
+   the model reaches the point where it records a solution - no conflict pending and every variable assigned, i.e. pick_var()
+   returned 0 - the recorded dict satisfies every input clause, every assumption and every clause of the database (all learned
+   and all blocking clauses, hence it differs from every model recorded before whose blocking clause is still there).
+   From (T) + (W) + (J): all variables are assigned and processed, so by J no clause has both watched literals false, by W
+   every clause is watched / implied / a level-0 unit; the input clauses keep their literals (only their order changes) and
+   the assumptions stay true at level 0 - both shown via the decomposition of a run into elementary steps. ---- *)
+Theorem C01_algorithm : forall fuel cls A mc mr limit lf orc P L0 L, valid_input cls A = true ->
+  init_loop fuel cls A mc mr limit lf orc = ILoop P L0 -> reach fuel P L0 L ->
+  l_conflict L = CNone -> all_assigned (l_st L) (n_vars_of cls) = true ->
+  let m := solution_of (l_st L) (n_vars_of cls) in
+  models (asg_of m) cls /\ agrees (asg_of m) A /\ models (asg_of m) (db (l_st L)).
+Proof. exact DeepAlgo.C01_algorithm_thm. Qed.
+Print Assumptions C01_algorithm.
+
+(* ... and end to end, for the Result the model returns: `solution` and every entry of `solutions` satisfy the input clauses and
+   the assumptions, and the entries of `solutions` are pairwise distinct (the blocking clause of a recorded model keeps lbd 0,
+   survives reduce_db, and is satisfied by every later model) *)
+Theorem C01_algorithm_result : forall fuel cls A mc mr limit lf orc evs r, valid_input cls A = true ->
+  solve_sat fuel cls A mc mr limit lf orc = Done evs r ->
+  (forall m, d_solution r = Some m -> models (asg_of m) cls /\ agrees (asg_of m) A)
+  /\ (forall ms, d_solutions r = Some ms -> NoDup ms /\ forall m, In m ms -> models (asg_of m) cls /\ agrees (asg_of m) A).
+Proof. exact DeepResult.solve_sat_sound. Qed.
+Print Assumptions C01_algorithm_result.
+
+(* the tie to the implementation: `deep_check` is what the check evaluates inside coqc for every real call (the model, fed with
+   the call's decisions, must reproduce the call's event trace and Result).  Whenever it holds, the solutions the IMPLEMENTATION
+   returned are models and pairwise distinct - by proof about the algorithm, not by evaluating them *)
+Theorem C01_deep_check_sound : forall cls A mc mr limit lf evs impl, valid_input cls A = true ->
+  deep_check cls A mc mr limit lf evs impl = true ->
+  (forall m, d_solution impl = Some m -> models (asg_of m) cls /\ agrees (asg_of m) A)
+  /\ (forall ms, d_solutions impl = Some ms -> NoDup ms /\ forall m, In m ms -> models (asg_of m) cls /\ agrees (asg_of m) A).
+Proof. exact DeepResult.deep_check_sound. Qed.
+Print Assumptions C01_deep_check_sound.
+
 (* ---- non-vacuity: the model reproduces real runs of /repo (solve_sat under both hooks) ---- *)
 Definition dx_N : cnf := [[1; 2; 3]; [-1; -2]; [-2; -3]; [1; -3; 4]; [-4; 2; 1]; [-1; -4]]%Z.
 Definition dx_evs : list devent :=
@@ -144,6 +179,10 @@ Example deep_nonvacuous_learn :
      DEv (ESolution [1; -2; -3; -4]); DEv (EVerdict OPTIMAL)]%Z
     (mkDres OPTIMAL (Some [1; -2; -3; -4]%Z) 4 3 8 None) = true.
 Proof. vm_compute. reflexivity. Qed.
+
+(* the inputs of the two examples are valid inputs of the theorems *)
+Example deep_nonvacuous_valid : valid_input dx_N [-2]%Z = true /\ valid_input dx_N2 [] = true.
+Proof. vm_compute. split; reflexivity. Qed.
 
 (* a wrong oracle, exhausted fuel and a tampered trace are not accepted *)
 Example deep_nonvacuous_rejects :
